@@ -444,10 +444,12 @@ static std::string run_attr(const std::vector<std::string> &t)
       std::vector<std::pair<nostd::string_view, common::AttributeValue>> kv;
       for (auto &h : a2.items) kv.emplace_back(nostd::string_view(h.key->data(), h.key->size()), h.value);
       std::unique_ptr<sm::FilteredOrderedAttributeMap> il;
-      if (kv.size() == 0) il.reset(new sm::FilteredOrderedAttributeMap({}, proc.get()));
-      else if (kv.size() == 1) il.reset(new sm::FilteredOrderedAttributeMap({kv[0]}, proc.get()));
-      else if (kv.size() == 2) il.reset(new sm::FilteredOrderedAttributeMap({kv[0], kv[1]}, proc.get()));
-      else il.reset(new sm::FilteredOrderedAttributeMap({kv[0], kv[1], kv[2]}, proc.get()));
+      // under the keep-everything filter the processor may also be absent (nullptr): every other such case
+      const sm::AttributesProcessor *ilp = (t[2] == "*" && (t[3].size() + t[4].size()) % 2) ? nullptr : proc.get();
+      if (kv.size() == 0) il.reset(new sm::FilteredOrderedAttributeMap({}, ilp));
+      else if (kv.size() == 1) il.reset(new sm::FilteredOrderedAttributeMap({kv[0]}, ilp));
+      else if (kv.size() == 2) il.reset(new sm::FilteredOrderedAttributeMap({kv[0], kv[1]}, ilp));
+      else il.reset(new sm::FilteredOrderedAttributeMap({kv[0], kv[1], kv[2]}, ilp));
       if (!(*il == *ma) || il->GetHash() != ma->GetHash()) return "ERR initializer-list constructor and KeyValueIterable constructor disagree";
     }
     // GetAllEnteries stops at the first `false` of its callback
